@@ -56,6 +56,19 @@ def absChunks (tk : Tokeniser) : Bs → List Bs → List (List StartTLS.Unit)
   | _, [] => []
   | p, c :: cs => (tokAll tk (p ++ c)).1 :: absChunks tk (tokAll tk (p ++ c)).2 cs
 
+/-- one segment the peer sends, as a decoder with a bounded read-ahead reads it: reads of at most
+`n + 1` bytes (`encoding/xml` reads through a `bufio.Reader` of 4096 bytes, and fills it only when
+it is empty) -/
+def cutEvery (n : Nat) (b : Bs) : List Bs :=
+  if b.length ≤ n + 1 then [b] else b.take (n + 1) :: cutEvery n (b.drop (n + 1))
+termination_by b.length
+decreasing_by
+  simp only [List.length_drop]
+  omega
+
+/-- the reads a peer's segments arrive in when a read returns at most `n + 1` bytes -/
+def boundedReads (n : Nat) (cs : List Bs) : List Bs := cs.flatMap (cutEvery n)
+
 /-- `pull` in clear text at the unit level: from the read-ahead, else the next non-empty segment -/
 def pullU : List StartTLS.Unit → List (List StartTLS.Unit) →
     Option (StartTLS.Unit × List StartTLS.Unit × List (List StartTLS.Unit))
